@@ -402,7 +402,13 @@ def set_elastic_params(elas_prm_names, elas_prm_dflt_vals,
                  blk_dbg_prm)
     elif prmcase == 2:
         # given -- lame_mod, poisson_ratio
-        # Neg. poisson and FPEs not possible.
+        # poisson_ratio = 0 implies lame_mod = 0, which contradicts the
+        # given positive lame_mod (and would divide by zero below).
+        if ns['pnu'] == 0.0:
+            raise ValueError(
+                'Specified values of ' + eky0 + ' = ' + str(ns['plda']) +
+                ' and ' + eky1 + ' = ' + str(ns['pnu']) + ' do not yield ' +
+                'a positive-definite strain energy function.')
         ns['pe'] = ns['plda']*(1 + ns['pnu'])*(1 - 2 * ns['pnu'])/ns['pnu']
         ns['pg'] = ns['plda']*(1 - 2 * ns['pnu']) / (2*ns['pnu'])
         check_ii(prmcase, eky0, ns['plda'], ivar_pnms['pg'], ns['pg'],
